@@ -179,6 +179,28 @@ def main():
         text = '#define M(a,b,c) %s\n#define X M(1,2,3)\n#define ID(x) x\n#define EMPTY\nM(%s,%s,%s) | M(%s,%s,%s)\n' % (body, a1, a2, a3, a2, a3, a1)
         f = os.path.join(wd, 'g%d.c' % gi); open(f, 'w').write(text)
         progs.append((f, text, {'grid', 'paste' if '##' in body else 'stringize'}))
+    # ---------- hide-set family: cycles of 2-5 macros (function-like / object-like mixed), names re-met at depth, invocations completed by the following text ----------
+    hs_progs = []
+    for hi in range(120 if run.quick() else 1200):
+        n = rng.randint(2, 5); kinds = [rng.choice('FFO') for _ in range(n)]
+        lines = []
+        for i in range(n):
+            nxt = (i + 1) % n; name = 'H%d' % i; nn = 'H%d' % nxt
+            arg = 'x' if kinds[i] == 'F' else str(i)
+            extra = ''
+            if rng.random() < 0.5: extra = ' H%d' % rng.randint(0, n - 1) + (rng.choice(['', '(%s)' % arg, ' (9)']) )
+            if kinds[nxt] == 'F':
+                body = rng.choice(['%s(%s)' % (nn, arg), '%s %s' % (arg, nn), '%s(%s) %s' % (nn, arg, nn), '%s (%s %s)' % (nn, nn, arg)])
+            else:
+                body = rng.choice(['%s %s' % (nn, arg), '%s %s' % (arg, nn), '%s %s %s' % (nn, arg, nn)])
+            lines.append('#define %s%s %s%s' % (name, '(x)' if kinds[i] == 'F' else '', body, extra))
+        rng.shuffle(lines)
+        for _ in range(rng.randint(1, 3)):
+            k0 = rng.randint(0, n - 1)
+            lines.append('H%d%s%s' % (k0, rng.choice(['(1)', ' (1)', '']) if kinds[k0] == 'F' else '', ''.join(rng.choice(['(2)', ' (3)', ' H%d' % rng.randint(0, n - 1), '']) for _ in range(rng.randint(0, 3)))))
+        text = '\n'.join(lines) + '\n'
+        f = os.path.join(wd, 'h%d.c' % hi); open(f, 'w').write(text)
+        progs.append((f, text, {'hideset-family'}))
     def one(p):
         f, text, feats = p
         rc, out, err = sh([chibi, '-verif-dump-tokens', '-E', f], timeout=30)
